@@ -2365,3 +2365,239 @@ def rule_parent_walk_truthiness(ctx, rep: Report, rid="N9", package="gtwrap/"):
         rep.add(rid, f"parent link:{ci.qual}:an object that can be a parent is always truthy", not falsy,
                 f"{ci.qual} defines {falsy}: an empty one is falsy, and {where} take a falsy link for the end of the chain - every name qualified through an "
                 f"empty {ci.name} loses the namespaces above it", f"{ci.mod.rel}:{ci.node.lineno}")
+
+
+def loop_carried_locals(fn: ast.FunctionDef, loop: ast.For) -> List[Tuple[str, ast.AST]]:
+    """Locals that one iteration of `loop` reads on a path on which *this* iteration has not assigned them, although the
+    loop body assigns them on other paths (plain assignments only: `x += ...` accumulates by design).  Such a local
+    holds what an earlier element left in it."""
+    assigned = set()
+    for n in ast.walk(ast.Module(body=loop.body, type_ignores=[])):
+        if isinstance(n, ast.Assign) and not isinstance(n.value, ast.Constant):       # flags (`first = False`) are carried by design
+            for t in n.targets:
+                assigned |= {x.id for x in ast.walk(t) if isinstance(x, ast.Name) and isinstance(x.ctx, ast.Store)}
+    accum = {n.target.id for n in ast.walk(ast.Module(body=loop.body, type_ignores=[])) if isinstance(n, ast.AugAssign) and isinstance(n.target, ast.Name)}
+    assigned -= accum
+    a = _LocalMustDef(fn)
+    a.locals = set(assigned)
+    a.params = set()
+    a.bad = []
+    a.block(loop.body, {x.id for x in ast.walk(loop.target) if isinstance(x, ast.Name)})
+    out, seen = [], set()
+    for var, node in a.bad:
+        if var in assigned and var not in seen:
+            seen.add(var)
+            out.append((var, node))
+    return out
+
+
+def rule_no_state_carried_between_elements(ctx, rep: Report, rid="X7", classes=("PybindWrapper", "MatlabWrapper"), min_loops=30):
+    """In every loop of the generators over declarations (classes, methods, arguments, ...) a local that the loop body sets for
+    *some* elements only is not read for the others: it would still hold what an earlier element left there (an alias
+    computed for one class exported for the classes that follow it).  Removing or adding an element then changes the text
+    generated for its neighbours."""
+    prog = ctx.prog
+    n = 0
+    for cname in classes:
+        ci = prog.cls(cname)
+        for k in prog.mro(ci):
+            for mname, fn in sorted(k.methods.items()):
+                for loop in [l for l in walk_no_nested(fn) if isinstance(l, ast.For)]:
+                    n += 1
+                    # the loops whose elements are classes / declarations of a namespace (the id replay loops carry state by design: C05)
+                    if not any(w in unparse(loop.iter) for w in ("classes", ".content", "enums", "properties")):
+                        continue
+                    carried = loop_carried_locals(fn, loop)
+                    rep.add(rid, f"loop:{k.name}.{mname}:over {unparse(loop.iter)[:40]}:nothing is carried from one element to the next",
+                            not carried,
+                            "; ".join(f"`{v}` is read at line {nd.lineno} on a path on which this iteration did not assign it" for v, nd in carried[:2]) +
+                            ": it holds the value an earlier element left there, so what is generated for one element depends on its predecessors",
+                            f"{k.mod.rel}:{loop.lineno}", nontrivial=bool(carried))
+    if n < min_loops:
+        raise AnalysisError(f"{rep.prop}/{rid}: only {n} loops scanned in {classes}")
+
+
+# ------------------------------------------------------------------------------------------------------------------
+# Z7 / Z8: no re-parsing inside a parse, no super-linear regular expression on the input
+RE_PARSE_CALLS = {"parseString", "parse_string", "parseFile", "parse_file", "searchString", "search_string", "scanString", "scan_string",
+                  "transformString", "transform_string"}
+
+
+def rule_no_reparse_in_actions(ctx, rep: Report, rid="Z7", min_actions=20):
+    """A parse action (and whatever it calls to build its node) does not start another parse.  A grammar element that
+    captures its text (`originalTextFor`) and whose action parses that text again makes every nesting level parse the
+    levels below it twice - 2^depth - and each nested parseString also resets the memo table of the running parse."""
+    aa, prog = ctx.actions, ctx.prog
+    from .rules_grammar import parse_root
+    root, _ = parse_root(ctx)
+    n = 0
+    for a in aa.distinct_actions(root):
+        n += 1
+        lv = a.action
+        bodies = [(lv.node, "the action")]
+        if isinstance(lv.node, ast.Lambda) and isinstance(lv.node.body, ast.Call):
+            tgt = aa.resolve_callee(lv.node.body, lv.mi, lv.cls_qual)
+            if tgt is not None:
+                bodies.append((tgt[1], f"{tgt[1].name}()"))
+                for c in ast.walk(tgt[1]):
+                    if isinstance(c, ast.Call):
+                        t2 = aa.resolve_callee(c, tgt[0].mod if tgt[0] else lv.mi, tgt[0].qual if tgt[0] else None)
+                        if t2 is not None and t2[1].name != "__init__":
+                            bodies.append((t2[1], f"{t2[1].name}()"))
+        hits = [(w, c) for b, w in bodies for c in ast.walk(b) if isinstance(c, ast.Call) and isinstance(c.func, ast.Attribute) and c.func.attr in RE_PARSE_CALLS]
+        rep.add(rid, f"{aa.label(a)}:the action builds its node from the tokens it was given (no nested parse)", not hits,
+                "; ".join(f"{w}: `{unparse(c)[:50]}` (line {c.lineno})" for w, c in hits[:2]) +
+                ": the text matched by this element is parsed a second time from inside the parse - nested elements are parsed twice per level "
+                "(exponential in the nesting depth), and the nested call resets the packrat table", f"{lv.mi.rel}:{getattr(lv.node, 'lineno', 0)}",
+                nontrivial=bool(hits))
+    if n < min_actions:
+        raise AnalysisError(f"{rep.prop}/{rid}: only {n} parse actions scanned")
+
+
+def _regex_chars(item) -> Optional[Set[int]]:
+    """Characters (code points below 128) one regex item can start with / consist of; None = anything."""
+    import re._constants as sc
+    op, av = item
+    WS, DIG = set(map(ord, " \t\n\r\f\v")), set(map(ord, "0123456789"))
+    WORD = set(map(ord, "abcdefghijklmnopqrstuvwxyzABCDEFGHIJKLMNOPQRSTUVWXYZ0123456789_"))
+    ALL = set(range(128))
+    cats = {sc.CATEGORY_SPACE: WS, sc.CATEGORY_DIGIT: DIG, sc.CATEGORY_WORD: WORD, sc.CATEGORY_NOT_SPACE: ALL - WS,
+            sc.CATEGORY_NOT_DIGIT: ALL - DIG, sc.CATEGORY_NOT_WORD: ALL - WORD}
+    if op == sc.LITERAL:
+        return {av} if av < 128 else set()
+    if op == sc.NOT_LITERAL:
+        return ALL - {av}
+    if op == sc.ANY:
+        return ALL - {10}
+    if op == sc.IN:
+        out: Set[int] = set()
+        neg = False
+        for k, v in av:
+            if k == sc.NEGATE:
+                neg = True
+            elif k == sc.LITERAL:
+                out.add(v)
+            elif k == sc.RANGE:
+                out |= set(range(v[0], min(v[1], 127) + 1))
+            elif k == sc.CATEGORY:
+                out |= cats.get(v, ALL)
+        return (ALL - out) if neg else out
+    if op == sc.CATEGORY:
+        return cats.get(av, ALL)
+    if op in (sc.MAX_REPEAT, sc.MIN_REPEAT):
+        body = list(av[2])
+        return _regex_first(body)
+    if op == sc.SUBPATTERN:
+        return _regex_first(list(av[3]))
+    if op == sc.BRANCH:
+        out = set()
+        for b in av[1]:
+            f = _regex_first(list(b))
+            if f is None:
+                return None
+            out |= f
+        return out
+    if op == sc.AT:
+        return set()
+    return None
+
+
+def _regex_first(items) -> Optional[Set[int]]:
+    """Characters a sequence can start with (skipping leading items that can match the empty string)."""
+    import re._constants as sc
+    out: Set[int] = set()
+    for it in items:
+        f = _regex_chars(it)
+        if f is None:
+            return None
+        out |= f
+        op, av = it
+        nullable = (op in (sc.MAX_REPEAT, sc.MIN_REPEAT) and av[0] == 0) or op == sc.AT
+        if not nullable:
+            return out
+    return out
+
+
+def regex_ambiguous_repeats(pattern: str) -> List[str]:
+    r"""Unbounded repeats nested in an unbounded repeat such that one run of characters can be split between the inner and the
+    outer repetition in many ways (`(\s*\n)+`: `\s` matches `\n` too) - backtracking is then exponential in the length of
+    the run.  A syntactic criterion on the parsed pattern: inner repeat's characters overlap what follows it inside the
+    outer body, or - the inner repeat being last - what the outer body starts with."""
+    import re._parser as sp
+    import re._constants as sc
+    found: List[str] = []
+
+    def unbounded(it) -> bool:
+        return it[0] in (sc.MAX_REPEAT, sc.MIN_REPEAT) and it[1][1] == sc.MAXREPEAT
+
+    def walk(items, inside_outer_body):
+        for k, it in enumerate(items):
+            op, av = it
+            if op in (sc.MAX_REPEAT, sc.MIN_REPEAT):
+                body = list(av[2])
+                if unbounded(it):
+                    check_body(body)
+                walk(body, None)
+            elif op == sc.SUBPATTERN:
+                walk(list(av[3]), None)
+            elif op == sc.BRANCH:
+                for b in av[1]:
+                    walk(list(b), None)
+
+    def flat(items):
+        out = []
+        for it in items:
+            if it[0] == sc.SUBPATTERN:
+                out += flat(list(it[1][3]))
+            else:
+                out.append(it)
+        return out
+
+    def check_body(body):
+        seq = flat(body)
+        for k, it in enumerate(seq):
+            if unbounded(it):
+                inner = _regex_first(list(it[1][2]))
+                rest = seq[k + 1:]
+                nxt = _regex_first(rest) if rest else None
+                rest_nullable = all((x[0] in (sc.MAX_REPEAT, sc.MIN_REPEAT) and x[1][0] == 0) or x[0] == sc.AT for x in rest)
+                follow = set(nxt or set())
+                if not rest or rest_nullable:
+                    f0 = _regex_first(seq)
+                    follow |= (f0 if f0 is not None else set(range(128)))
+                if inner is None or nxt is None and rest:
+                    found.append("an unbounded repeat of `.`-like items inside an unbounded repeat")
+                elif inner & follow:
+                    found.append(f"inner repeat and what follows it share {sorted(chr(c) for c in (inner & follow))[:4]!r}")
+    try:
+        walk(list(sp.parse(pattern)), None)
+    except Exception:
+        return []
+    return found
+
+
+def rule_no_superlinear_regex(ctx, rep: Report, rid="Z8", package="gtwrap/"):
+    """Every regular expression of the tool is applied to text of unbounded length (an interface file, a name, a docstring): none
+    nests an unbounded repetition inside another so that a run of characters can be divided between them ambiguously."""
+    for pat, want in ((r"(\s*\n)+$", True), (r"\\(x[0-9a-f]{2}|.)", False), (r"(a+)+b", True), (r"\s*\n", False), (r"(\w+\s)+", False)):
+        if bool(regex_ambiguous_repeats(pat)) != want:
+            raise AnalysisError(f"{rep.prop}/{rid}: built-in example {pat!r} is not decided as expected")
+    prog = ctx.prog
+    n = 0
+    for mi in sorted(prog.modules.values(), key=lambda m: m.rel):
+        if not mi.rel.startswith(package):
+            continue
+        for c in ast.walk(mi.tree):
+            if isinstance(c, ast.Call) and (dotted(c.func) or "").split(".")[0] in ("re", "regex") and c.args and isinstance(c.args[0], ast.Constant) \
+                    and isinstance(c.args[0].value, str) and (dotted(c.func) or "").split(".")[-1] in ("compile", "sub", "subn", "match", "search", "fullmatch", "findall", "finditer", "split"):
+                n += 1
+                probs = regex_ambiguous_repeats(c.args[0].value)
+                rep.add(rid, f"regex:{mi.rel.split('/')[-1]}:{c.args[0].value[:40]!r}:no ambiguous nested repetition", not probs,
+                        f"{probs[:2]}: a run of k such characters that is not followed by what the pattern needs is tried in 2^k ways (twenty-odd blank "
+                        f"lines in a file take seconds, a few more minutes)", f"{mi.rel}:{c.lineno}", nontrivial=bool(probs))
+            elif isinstance(c, ast.Call) and c.func.__class__ is ast.Name and c.func.id == "Regex" and c.args and isinstance(c.args[0], ast.Constant):
+                n += 1
+                probs = regex_ambiguous_repeats(str(c.args[0].value))
+                rep.add(rid, f"regex:{mi.rel.split('/')[-1]}:Regex({str(c.args[0].value)[:30]!r}):no ambiguous nested repetition", not probs, f"{probs[:2]}",
+                        f"{mi.rel}:{c.lineno}", nontrivial=bool(probs))
+    rep.units["regexes_checked"] = n
